@@ -31,6 +31,7 @@ CONSTANTS Tags,       \* tags used for full frames
 
 BoundaryTags == {0, 1, 2, 255, 256, 65535, 65536, 16777214, 16777215}
 SomeTags     == {0, 256, 16777215}
+FiveTags     == {0, 255, 256, 65536, 16777215}
 HiQuick      == {0, 1, 127, 128, 255}
 HiAll        == 0..255
 NoTags       == {}
@@ -125,9 +126,12 @@ ChecksRejectCorruption ==
 
 ImplAgrees ==
   CASE m.kind = "disp" -> ImplDispatchFrame(m.tag, m.ctx, m.payload, Variant) = TdispatchFrame(m.tag, m.ctx, m.payload)
-    [] m.kind = "hdr"  -> m.type \in ReplyTypes =>
-                            \A lo \in LoBoundary :
-                              ImplReadHeader(Header(m.type, m.hi * 65536 + lo), Variant) = <<m.type, m.hi * 65536 + lo>>
+    [] m.kind = "disc" -> ImplDiscardFrame(m.tag, m.which, m.why) = TdiscardedFrame(m.tag, m.which, m.why)
+    [] m.kind = "ping" -> ImplBuildHeader(m.tag, TpingT, 0) = TpingFrame(m.tag)
+    [] m.kind = "hdr"  -> \A lo \in LoBoundary :
+                            LET tag == m.hi * 65536 + lo IN
+                            /\ ImplBuildHeader(tag, m.type, 5) = I32(9) \o Header(m.type, tag)
+                            /\ m.type \in ReplyTypes => ImplReadHeader(Header(m.type, tag), Variant) = <<m.type, tag>>
     [] OTHER -> TRUE
 
 ASSUME CrcSelfTest
